@@ -107,6 +107,45 @@ func TestC04(t *testing.T) {
 			}
 		})
 
+		c.Sub("reentrant-arguments", func(s *Sub) {
+			if c.Shard != 0 {
+				return
+			}
+			// call sites with several arguments that are re-entered while their own argument list is being
+			// evaluated, each exercised several times (a second complete evaluation of the same site)
+			P, R, F, I := bn.KwPrint, bn.KwReturn, bn.KwFun, bn.KwIf
+			defs := []string{
+				F + " add(a, b) { " + R + " a + b; }\n" + F + " total(n) { " + I + " (n == 0) " + R + " 0; " + R + " add(n, total(n - 1)); }\n",
+				F + " ack(m, n) { " + I + " (m == 0) " + R + " n + 1; " + I + " (n == 0) " + R + " ack(m - 1, 1); " + R + " ack(m - 1, ack(m, n - 1)); }\n",
+				F + " mx(a, b) { " + I + " (a > b) " + R + " a; " + R + " b; }\n" + F + " top(xs, i) { " + I + " (i == " + bn.BLen + "(xs) - 1) " + R + " xs[i]; " + R + " mx(xs[i], top(xs, i + 1)); }\n",
+				F + " three(a, b, c) { " + R + " [a, b, c]; }\n" + F + " nest(n) { " + I + " (n == 0) " + R + " []; " + R + " three(n, nest(n - 1), n * 10); }\n",
+				F + " pair(a, b) { " + R + " a * 100 + b; }\n" + F + " fb(n) { " + I + " (n < 2) " + R + " n; " + R + " pair(fb(n - 1), fb(n - 2)) % 97; }\n",
+				F + " cat(a, b, c) { " + R + " a + b + c; }\n" + F + " wrap(n) { " + I + " (n == 0) " + R + " \"x\"; " + R + " cat(\"<\", wrap(n - 1), \">\" + n); }\n",
+			}
+			calls := [][]string{
+				{"total(4)", "total(4)", "total(6)", "total(1)", "total(6)"},
+				{"ack(1, 2)", "ack(2, 2)", "ack(1, 2)", "ack(2, 1)"},
+				{"top([3, 9, 2, 7], 0)", "top([3, 9, 2, 7], 0)", "top([5, 1], 0)", "top([1, 2, 3, 4, 5], 1)"},
+				{"nest(2)", "nest(3)", "nest(2)"},
+				{"fb(5)", "fb(7)", "fb(5)"},
+				{"wrap(2)", "wrap(3)", "wrap(1)"},
+			}
+			for i, d := range defs {
+				src := d
+				for _, cl := range calls[i] {
+					src += P + " " + cl + ";\n"
+				}
+				c.c04Program(s, "reentrant-arguments", src, true, "reentrant-arguments")
+				// the same calls from inside a loop and through a stored function value
+				src2 := d + bn.KwFor + " (" + bn.KwVar + " k = 0; k < 3; k = k + 1) {\n"
+				for _, cl := range calls[i] {
+					src2 += "  " + P + " " + cl + ";\n"
+				}
+				src2 += "}\n"
+				c.c04Program(s, "reentrant-arguments", src2, true, "reentrant-arguments")
+			}
+		})
+
 		maxC, maxLeaves := 2, int64(40000)
 		if c.Thorough {
 			maxC, maxLeaves = 3, 1500000
@@ -138,6 +177,44 @@ func TestC04(t *testing.T) {
 			src, deep := c04ReturnSkeleton(func(label string, n int) int { return rapid.IntRange(0, n-1).Draw(rt, label) },
 				rapid.IntRange(3, 20).Draw(rt, "budget"), rapid.IntRange(1, 4).Draw(rt, "depth"))
 			c.c04Program(s, "rand-return-skeletons", src, deep, "return-skeleton")
+		})
+
+		c.Rapid("rand-reentrant-recursion", n/2, func(rt *rapid.T, s *Sub) {
+			// a random binary combiner and a random recursive function whose recursive calls sit in argument
+			// positions of calls to itself or to the combiner; called several times with small arguments
+			comb := rapid.SampledFrom([]string{"a + b", "a * 2 + b", "a - b", "[a, b]", "b", "a"}).Draw(rt, "comb")
+			var arg func(d int) string
+			arg = func(d int) string {
+				switch rapid.IntRange(0, 5).Draw(rt, "arg") {
+				case 0:
+					return "n"
+				case 1:
+					return fmt.Sprint(rapid.IntRange(0, 9).Draw(rt, "k"))
+				case 2, 3:
+					if d > 0 {
+						return "rec(n - " + fmt.Sprint(rapid.IntRange(1, 2).Draw(rt, "dec")) + ", " + arg(d-1) + ")"
+					}
+					return "acc"
+				case 4:
+					if d > 0 {
+						return "cmb(" + arg(d-1) + ", " + arg(d-1) + ")"
+					}
+					return "n"
+				default:
+					return "acc"
+				}
+			}
+			body := "cmb(" + arg(2) + ", " + arg(2) + ")"
+			if rapid.Bool().Draw(rt, "self") {
+				body = "rec(n - 1, " + arg(2) + ")"
+			}
+			src := bn.KwFun + " cmb(a, b) { " + bn.KwReturn + " " + comb + "; }\n" +
+				bn.KwFun + " rec(n, acc) { " + bn.KwIf + " (n <= 0) " + bn.KwReturn + " acc; " + bn.KwReturn + " " + body + "; }\n"
+			k := rapid.IntRange(2, 5).Draw(rt, "calls")
+			for i := 0; i < k; i++ {
+				src += fmt.Sprintf("%s rec(%d, %d);\n", bn.KwPrint, rapid.IntRange(0, 4).Draw(rt, "n0"), rapid.IntRange(0, 3).Draw(rt, "a0"))
+			}
+			c.c04Program(s, "rand-reentrant-recursion", src, true, "reentrant-recursion")
 		})
 
 		c.Rapid("closure-histories", n, func(rt *rapid.T, s *Sub) {
